@@ -19,6 +19,12 @@ THEOREMS = [NS + n for n in [
     "parse_facebook_url_total",
     "has_facebook_comments_total",
     "convert_only_documented_error",
+    "record_valid",
+    "has_facebook_comments_spec",
+    "reparse_url_partial",
+    "witness_facts",
+    "fullReparse_false",
+    "excluded_shapes_fail",
 ]]
 TABLE_OBLIGATIONS = [NS + n for n in [
     "patterns_unchanged",
